@@ -9,7 +9,7 @@
 (* index), so the number of distinct states TLC reports is the number of   *)
 (* configurations checked.                                                 *)
 (***************************************************************************)
-EXTENDS FileFmt, Json, IOUtils
+EXTENDS FileFmt, Json, IOUtils, SequencesExt
 
 CONSTANTS Pairs         \* TRUE: add every ordered pair of specifiers (NPD side)
 
@@ -103,13 +103,62 @@ FmtListsB == [k \in 1..(NSpec * NSpec) |->
 NA == Len(TypeDims) * Len(ExtSet) * Len(Z0Seq) * Len(FmtListsA)
 NB == IF Pairs THEN Len(TypeDims) * Len(ExtSetNpd) * Len(Z0SeqNpd) * Len(FmtListsB)
       ELSE 0
-N  == NA + NB
+(* block C: the impedance equality pattern as a dimension -- every pattern   *)
+(* of Z0Patterns(ports), real / complex / per-frequency, under              *)
+(* representative file types and format lists                               *)
+PatLit ==      \* Z0Patterns(n) written out (ASSUME below), n = 1..6
+    << << <<1>> >>,
+       << <<1, 1>>, <<1, 2>> >>,
+       << <<1, 1, 1>>, <<1, 1, 2>>, <<1, 2, 1>>, <<1, 2, 2>>, <<1, 2, 3>> >>,
+       << <<1, 1, 1, 1>>, <<1, 1, 1, 2>>, <<1, 1, 2, 1>>, <<1, 1, 2, 2>>, <<1, 1, 2, 3>>, <<1, 2, 1, 1>>, <<1, 2, 1, 2>>, <<1, 2, 1, 3>>, <<1, 2, 2, 1>>, <<1, 2, 2, 2>>, <<1, 2, 2, 3>>, <<1, 2, 3, 1>>, <<1, 2, 3, 2>>, <<1, 2, 3, 3>>, <<1, 2, 3, 4>> >>,
+       << <<1, 1, 1, 1, 1>>, <<1, 2, 3, 4, 5>>, <<1, 2, 3, 4, 1>>, <<1, 2, 1, 3, 4>>, <<1, 1, 2, 1, 1>>, <<1, 1, 1, 1, 2>>, <<1, 2, 2, 3, 1>> >>,
+       << <<1, 1, 1, 1, 1, 1>>, <<1, 2, 3, 4, 5, 6>>, <<1, 2, 3, 4, 5, 1>>, <<1, 2, 1, 3, 4, 5>>, <<1, 1, 2, 1, 1, 1>>, <<1, 1, 1, 1, 1, 2>>, <<1, 2, 2, 3, 4, 1>> >> >>
+
+ASSUME \A n \in 1..6 : {PatLit[n][j] : j \in 1..Len(PatLit[n])} = Z0Patterns(n)
+                       /\ Cardinality(Z0Patterns(n)) = Len(PatLit[n])
+
+KindSeq == <<"real", "complex", "perfreq">>
+
+(* heads of block C: (type/dims index, kind, pattern), enumerated by index  *)
+HeadCount(t) == Len(KindSeq) * Len(PatLit[TypeDims[t][3]])
+RECURSIVE HeadsBefore(_)
+HeadsBefore(t) == IF t = 1 THEN 0 ELSE HeadsBefore(t - 1) + HeadCount(t - 1)
+NHeads == 486
+ASSUME NHeads = HeadsBefore(Len(TypeDims)) + HeadCount(Len(TypeDims))
+HeadOff ==          \* HeadsBefore(t) written out (cheap to evaluate per state)
+    << 0, 3, 9, 24, 69, 90, 111, 114, 120, 135, 180, 201, 222, 225, 231, 246, 291, 312, 333, 339, 345, 351, 357, 363, 369, 372, 378, 393, 438, 459, 480 >>
+ASSUME \A t \in 1..Len(TypeDims) : HeadOff[t] = HeadsBefore(t)
+HeadAt(h) ==        \* h in 0..NHeads-1
+    LET t == CHOOSE x \in 1..Len(TypeDims) :
+                 HeadOff[x] <= h /\ (x = Len(TypeDims) \/ h < HeadOff[x + 1])
+        r == h - HeadOff[t]
+        np == Len(PatLit[TypeDims[t][3]])
+    IN <<t, KindSeq[(r \div np) + 1], PatLit[TypeDims[t][3]][(r % np) + 1]>>
+ExtSetC == << <<"npd", "auto">>, <<"ts", "auto">>, <<"ts", "ts1">>,
+              <<"snp", "auto">>, <<"none", "ts2">>, <<"none", "auto">> >>
+FmtIdxC == <<0, 1, 2, 11, 37>>     \* indices into FmtListsA: none, Sri, Sma, Zma, Zri+SdB+Zinma
+NC == NHeads * Len(ExtSetC) * Len(FmtIdxC)
+
+N  == NA + NB + NC
 
 (* the nf = 0 rows ride along with the first format lists only *)
 
 Mk(td, es, z, fm, fid) ==
     [type |-> td[1], rows |-> td[2], cols |-> td[3], nf |-> 3,
-     ext |-> es[1], set |-> es[2], fmts |-> fm, z0c |-> z, fid |-> fid]
+     ext |-> es[1], set |-> es[2], fmts |-> fm, z0c |-> z, fid |-> fid,
+     z0p |-> CanonPattern(z, td[3])]
+
+CfgC(k) ==
+    LET nf == Len(FmtIdxC)
+        ne == Len(ExtSetC)
+        f  == k % nf
+        e  == (k \div nf) % ne
+        h  == HeadAt(k \div (nf * ne))
+        td == TypeDims[h[1]]
+    IN [type |-> td[1], rows |-> td[2], cols |-> td[3], nf |-> 3,
+        ext |-> ExtSetC[e + 1][1], set |-> ExtSetC[e + 1][2],
+        fmts |-> FmtListsA[FmtIdxC[f + 1] + 1], fid |-> FmtIdxC[f + 1],
+        z0c |-> Z0ClassOf(h[2], h[3]), z0p |-> h[3]]
 
 CfgA(k) ==       \* k in 0..NA-1, format list fastest
     LET nf == Len(FmtListsA)
@@ -132,7 +181,8 @@ CfgB(k) ==
     IN Mk(TypeDims[t + 1], ExtSetNpd[e + 1], Z0SeqNpd[z + 1], FmtListsB[f + 1],
           Len(FmtListsA) + f)
 
-Cfg(k) == IF k < NA THEN CfgA(k) ELSE CfgB(k - NA)     \* k in 0..N-1
+Cfg(k) == IF k < NA THEN CfgA(k)                        \* k in 0..N-1
+          ELSE IF k < NA + NB THEN CfgB(k - NA) ELSE CfgC(k - NA - NB)
 
 cfg == Cfg(i)
 
@@ -151,6 +201,9 @@ R == ResolveFiletype(cfg.ext, cfg.set)
 
 WellFormedCfg ==
     /\ DimsFit(cfg.type, cfg.rows, cfg.cols)
+    /\ \E j \in 1..Len(PatLit[cfg.cols]) : cfg.z0p = PatLit[cfg.cols][j]
+    \* the class is what the pattern says (a 1-port "unequal" is "equal")
+    /\ Z0Class(cfg) = Z0ClassOf(KindOfClass(cfg.z0c), cfg.z0p)
     /\ \A k \in 1..Len(cfg.fmts) : cfg.fmts[k] \in Specifiers
 
 (* totality: a verdict for every configuration, with a final file type     *)
@@ -228,7 +281,7 @@ AllFmtLists == IF Pairs THEN FmtListsA \o FmtListsB ELSE FmtListsA
 Row(k) ==
     LET c == Cfg(k)
     IN <<c.type, c.rows, c.cols, c.ext, c.set, c.fid, c.z0c,
-         SaveVerdict(c).v, SaveVerdict(c).ft>>
+         SaveVerdict(c).v, SaveVerdict(c).ft, c.z0p>>
 
 Table ==
     [fmts |-> [k \in 1..Len(AllFmtLists) |->
